@@ -286,8 +286,13 @@ def r_gauss_sib(ctx: RuleCtx, col: Collector):
         raise AnalysisError(f"only {len(loops)} element-integration loops found")
 
     def canon(e, var):
-        t = norm(e)
-        return t.replace(var, "N")
+        import copy as _c
+        from .common import canon_arith
+        e2 = _c.deepcopy(e)
+        for x in ast.walk(e2):
+            if isinstance(x, ast.Name) and x.id == var:
+                x.id = "NODE"
+        return canon_arith(e2)
     ref = None
     for c, f, n, pos, w in loops:
         if pos is None:
